@@ -24,6 +24,12 @@ src = src.replace(needle, "\t\tpanic(VerifFatalExit{})\n\t})\n}")
 needle2 = "\t\t\tcloser.Close()\n"
 assert src.count(needle2) == 1
 src = src.replace(needle2, "\t\t\t_ = closer\n")
+# Logger.Panic panics with a string; so do library misuse panics (strings.Builder copied by value, ...). Give the
+# deliberate diagnostic a type of its own so that the in-process seam can tell them apart.
+needle3 = "func(msg string) { panic(msg) }"
+assert src.count(needle3) >= 1
+src = src.replace(needle3, "func(msg string) { panic(VerifPanic(msg)) }")
+src += "\n// VerifPanic is what Logger.Panic panics with in the verif in-process worker build.\ntype VerifPanic string\n"
 src += "\n// VerifFatalExit is what Logger.Fatal panics with in the verif in-process worker build.\ntype VerifFatalExit struct{}\n"
 src += "\nvar _ = os.Exit\n"
 pz = os.environ["VERIF_BUILD"] + "/zerolog_log.go"
